@@ -62,6 +62,8 @@ def strat_quantile(tier):
             'alphas': st.lists(alpha, min_size=1, max_size=6),
             'pow2': st.integers(-20, 20),
             'scale': st.floats(1e-3, 1e3, allow_nan=False),
+            # whole-number values / weights (counts) handed over as integer arrays
+            'int_inputs': st.sampled_from(['no', 'no', 'x', 'w', 'both']),
         })
     return _values().flatmap(build)
 
@@ -99,8 +101,14 @@ def run_quantile(case):
     labels = []
     res = []
     for a in alphas:
-        with must_not_raise(P, 'weighted_sample_quantile(x=%r, alpha=%r, weights=%r)' % (xs.tolist(), a, case['ws'])):
-            q = weighted_sample_quantile(xs.copy(), a, weights=None if wargs is None else wargs.copy())
+        xin, win = xs.copy(), (None if wargs is None else wargs.copy())
+        ii = case.get('int_inputs', 'no')
+        if ii in ('x', 'both') and np.all(xin == np.round(xin)):
+            xin = xin.astype(np.int64)
+        if ii in ('w', 'both') and win is not None and np.all(win == np.round(win)):
+            win = win.astype(np.int64)
+        with must_not_raise(P, 'weighted_sample_quantile(x=%r (dtype %s), alpha=%r, weights=%r (dtype %s))' % (xs.tolist(), xin.dtype, a, case['ws'], None if win is None else win.dtype)):
+            q = weighted_sample_quantile(xin, a, weights=win)
         q = float(q)
         ok, why = weighted_quantile_ok(xs, ws, a, q)
         if not ok:
@@ -154,6 +162,7 @@ def strat_var(tier):
             'cols': st.lists(col, min_size=1, max_size=3),
             'ws': _weights(n, min_pos=2),
             'oned': st.booleans(),
+            'int_inputs': st.sampled_from(['no', 'no', 'x', 'w', 'both']),
         })
     return st.integers(2, 30).flatmap(build)
 
@@ -164,8 +173,14 @@ def run_var(case):
     n = len(cols[0])
     x = cols[0] if (case['oned'] and len(cols) == 1) else np.column_stack(cols)
     ws = None if case['ws'] is None else np.array(case['ws'], dtype=float)
-    with must_not_raise(P, 'weighted_var'):
-        s2 = np.atleast_1d(weighted_var(x.copy(), None if ws is None else ws.copy()))
+    xin, win = x.copy(), (None if ws is None else ws.copy())
+    ii = case.get('int_inputs', 'no')
+    if ii in ('x', 'both') and np.all(xin == np.round(xin)):
+        xin = xin.astype(np.int64)
+    if ii in ('w', 'both') and win is not None and np.all(win == np.round(win)):
+        win = win.astype(np.int64)
+    with must_not_raise(P, 'weighted_var (x dtype %s, weights dtype %s)' % (xin.dtype, None if win is None else win.dtype)):
+        s2 = np.atleast_1d(weighted_var(xin, win))
     fw = [Fraction(1)] * n if ws is None else [Fraction(float(v)) for v in ws]
     V1 = sum(fw)
     V2 = sum(v * v for v in fw)
